@@ -59,6 +59,9 @@ def build(x):
     f.rewrite(r"response\[key\] = json!\[\{\"csv\": json!\[errors\]\}\];", "verif_set(response, key, verif_csv_error_value(errors));", 0, 1, rule="R-collect")
     f.rewrite(r"response\[\"(\w+)\"\] = json!\[\{\"csv\": json!\[errors\]\}\];", r'verif_set(response, verif_string("\1"), verif_csv_error_value(errors));', 0, 1, rule="R-collect")
     f.rewrite(r"String::from\(\"error\"\)", 'verif_string("error")', 0, 1, rule="R-into")
+    # keys given as &str literals (`response.get("error")`, `{ "csv_error" } else { "error" }`) are written as Strings: the shim of serde_json's Index takes a String
+    f.rewrite(r"response\.get\(\"(\w+)\"\)", r'response.get(&verif_string("\1"))', 0, 4, rule="R-into")
+    f.rewrite(r"\{\s*\"(\w+)\"\s*\}", r'{ verif_string("\1") }', 0, 4, rule="R-into")
     f.rewrite(r"format!\(\"csv_\{\}\", key\)", "verif_prefixed(&key)", 0, 1, rule="R-format")
     ls = f.loops()
     if len(ls) == 1:
